@@ -477,7 +477,8 @@ def specialise_defaults(trees: Dict[str, ast.Module]) -> List[str]:
                     continue  # dropping it would shift later positional arguments
                 ok = True
                 sites = []
-                for call, caller in calls.get(fn.name, []):
+                # a constructor is called by the class's name, not by `__init__`
+                for call, caller in (calls.get(cls, []) if fn.name == "__init__" and cls else calls.get(fn.name, [])):
                     if any(isinstance(x, ast.Starred) for x in call.args) or any(k.arg is None for k in call.keywords):
                         ok = False
                         break
@@ -486,7 +487,7 @@ def specialise_defaults(trees: Dict[str, ast.Module]) -> List[str]:
                         if k.arg == p:
                             passed = k.value
                     if passed is None and p in pos_names:
-                        idx = pos_names.index(p) - (1 if is_method and isinstance(call.func, ast.Attribute) else 0)
+                        idx = pos_names.index(p) - (1 if is_method and (isinstance(call.func, ast.Attribute) or fn.name == "__init__") else 0)
                         if 0 <= idx < len(call.args):
                             passed = call.args[idx]
                     if passed is None:
